@@ -52,7 +52,13 @@ pub enum TOp {
     HandOff { kind: Kind, to: usize },
     /// seal while this thread's random source fails
     EncryptRngFail,
-    ParseGarbageKey { kind: Kind },
+    /// shape 0: wrong length; 1: right length, all zero; 2: right length, all 0xff; 3: right length,
+    /// random; 4: right length, high byte 0xff then random (above any group order / field prime)
+    ParseGarbageKey {
+        kind: Kind,
+        #[serde(default)]
+        shape: u8,
+    },
 }
 
 impl TOp {
@@ -341,8 +347,27 @@ fn run_op(bk: Bk, keys: &mut Keys, shared: &Shared, st: &mut ThreadState, mail: 
                 "skip".into()
             }
         }
-        TOp::ParseGarbageKey { kind } => {
-            let g = format!("k{f}.{}.{}", kind.header(), faults::b64(&Rng::new(s).bytes(31)));
+        TOp::ParseGarbageKey { kind, shape } => {
+            let right = match (f, kind) {
+                (_, Kind::Local) => 32,
+                (3, Kind::Public | Kind::PkePublic) => 49,
+                (3, _) => 48,
+                (2 | 4, Kind::Public | Kind::PkePublic) => 32,
+                (2 | 4, _) => 64,
+                _ => 270,
+            };
+            let bytes = match shape {
+                0 => Rng::new(s).bytes(31),
+                1 => vec![0u8; right],
+                2 => vec![0xffu8; right],
+                3 => Rng::new(s).bytes(right),
+                _ => {
+                    let mut v = Rng::new(s).bytes(right);
+                    v[0] = 0xff;
+                    v
+                }
+            };
+            let g = format!("k{f}.{}.{}", kind.header(), faults::b64(&bytes));
             res(&be.key_parse(*kind, &g), |_| "accepted".into())
         }
     };
@@ -556,11 +581,12 @@ pub fn run_threads(w: &mut World, spec: &ThreadSpec) {
                 }
             }
             // expected outcome classes
-            let must_fail = op.is_failing();
+            // right-length garbage may happen to be a valid key (every 32 bytes are a local key)
+            let must_fail = op.is_failing() && !matches!(op, TOp::ParseGarbageKey { shape, .. } if *shape != 0);
             if must_fail && g.starts_with("ok:") && g != "ok:skip" {
                 w.violate("C17", "failing-operation-succeeded", bk, &opn, "", format!("thread {t} op {i} {op:?} -> {}", crate::world::truncate(&g, 90)));
             }
-            if !must_fail && g.starts_with("err:") {
+            if !must_fail && !op.is_failing() && g.starts_with("err:") {
                 w.violate("C17", "operation-failed-under-concurrent-use", bk, &opn, "", format!("thread {t} op {i} {op:?} -> {g}"));
             }
         }
